@@ -1,4 +1,4 @@
 From Coq Require Import List Arith.
-From BQ Require Import rt.CancelM.
+From BQ Require Import rt.CancelM rt.CancelTree.
 From Coq Require Extraction ExtrOcamlBasic.
-Extraction "cancel_model.ml" init_sys step overtaken quiescent clean holds_dead no_orphans dead.
+Extraction "cancel_model.ml" init_sys step overtaken quiescent clean holds_dead no_orphans dead route_cancel.
